@@ -242,13 +242,11 @@ func rigHeader(b []byte) (tag uint64, total int64) {
 // inBubble runs f inside a synctest bubble and swallows the "goroutines remain" panic that a
 // failed case may leave behind (results are recorded before the bubble ends).
 func inBubble(t *testing.T, f func()) (panicked any) {
-	defer func() {
-		if r := recover(); r != nil {
-			panicked = r
-		}
-	}()
-	synctest.Test(t, func(t *testing.T) { f() })
-	return nil
+	p, leftover := vk.InBubble(t, f) // includes the stuck-bubble watchdog
+	if leftover {
+		return nil
+	}
+	return p
 }
 
 var rigMethodNames = map[byte]string{EncryptionMethodPlain: "plain", EncryptionMethodAES256GCM: "aes-256-gcm", EncryptionMethodChaha20Poly1305: "chacha20-poly1305", EncryptionMethodAES128GCM: "aes-128-gcm"}
